@@ -198,7 +198,28 @@ def _gen_emulsion(rng):
     periodic = rng.random() < 0.5
     L = rng.choice([4.0, 10.0, 7.5])
     n = rng.randint(0, 9)
-    style = rng.choice(["uniform", "chain", "crowd", "dupes", "satellite"])
+    style = rng.choice(["uniform", "chain", "crowd", "dupes", "satellite", "twins", "vanished"])
+    if style in ("twins", "vanished"):
+        drops = []
+        for _ in range(rng.randint(1, 4)):
+            p = [rng.uniform(0, L) for _ in range(dim)]
+            r = rng.uniform(0.3, 1.2)
+            if style == "twins":
+                # an overlapping pair whose radii differ by a relative 1e-6 .. 1e-9: the (barely) larger one must survive
+                r2 = r * (1 + rng.choice([1e-6, 1e-8, 3e-9]))
+                q = [x + rng.uniform(-0.5, 0.5) * r for x in p]
+                pair = [(p, r2), (q, r)] if rng.random() < 0.6 else [(q, r), (p, r2)]
+                drops += pair
+            else:
+                # a vanished droplet (radius exactly 0) strictly inside another one: its surface distance is negative
+                drops.append((p, r))
+                u = [rng.gauss(0, 1) for _ in range(dim)]
+                nu = math.sqrt(sum(x * x for x in u)) or 1.0
+                drops.append(([x + rng.uniform(0.1, 0.8) * r * y / nu for x, y in zip(p, u)], 0.0))
+        if rng.random() < 0.5:
+            rng.shuffle(drops)
+        M = rng.choice([0, 0, 0.3, -0.2])
+        return dim, L, periodic, drops, M
     if style == "satellite":
         # big droplets (possibly overlapping) each with tiny satellites just outside their surface
         drops = []
